@@ -50,7 +50,7 @@ CHECKS.update({
         text="Decides the width-crossing clause: every narrowing integer cast and every checked u8/u16 arithmetic in the bytecode "
              "compiler is an obligation discharged only by a dominating range guard on the same value (or a recognised "
              "allocator idiom). The 26 unguarded sites of the pinned tree were genuine (each with the program that failed) and were "
-             "repaired (fix: commit); a new unguarded site is a violation. The non-cumulative register clause is not decided.",
+             "repaired (fix: commit); a new unguarded site is a violation. The non-cumulative register clause is not decided. Constants of a de-duplicated kind are built only by the function that consults the map (the pool grows per distinct constant).",
         ref="4/C10"),
 })
 
@@ -73,7 +73,7 @@ CHECKS.update({
              "values); no RefCell guard of a GC cell is held across a call that may collect or re-enter (abort in extern \"C\"); "
              "possibly-object values stored across calls carry a guard; every length reported next to a leaked boxed slice is the "
              "len() of that very vector; a C string returned by foreign code is read before last_error is written; a handle given to a foreign callee is freed only on the `!= result` edge when the returned pointer is taken too. The fulfill_orders and callback double-free defects were repaired (fix: commits). "
-             "Aliasing and lifetime contracts of the API are not decided.",
+             "Aliasing and lifetime contracts of the API are not decided. No API-layer type stores a bare JsValue / Gc between calls.",
         ref="4/C17"),
 })
 
@@ -95,7 +95,7 @@ CHECKS.update({
              "mem::take (or is built where the ledger is known empty), Complete is built only on the nothing-outstanding edges, "
              "order ids are fresh, only designated functions touch the ledger and delivered responses are consumed by key, step() re-checks settled promises before taking "
              "a ready context, and the two result mappers agree per VmResult variant. Protocol-history clauses (progress, "
-             "combinator settlement) are not decided. Also: the index a race settler carries ranges over the collection that sized the order-id vector.",
+             "combinator settlement) are not decided. Also: the index a race settler carries ranges over the collection that sized the order-id vector. The countdown of Promise.all starts at the number of handlers the attach loop creates.",
         ref="4/C08"),
     "C19": dict(
         technique="static analysis: sibling comparison of transitive effect signatures (field writes, ledger takes, constructions) on corresponding CFG fragments: match arms of shared enums, dominating regions; exit-path search from the non-empty edge of the import test",
@@ -127,7 +127,7 @@ CHECKS.update({
              "state (mem::take / Option::take / pop / remove / drain applied behind a RefMut, or a local function that returns such a value). "
              "The ten guardflow hazards and the four detached-value hazards of the pinned tree (promise handlers, Promise.all results, splice) were "
              "reproduced as wrong results and repaired (fix: commits). Hazards needing a callback to unlink a heap-rooted object "
-             "are not decided. Also: values gathered in a local vector across calls that may collect are guarded; a rebuilt frame roots the register file it takes from saved state in its own guard.",
+             "are not decided. Also: values gathered in a local vector across calls that may collect are guarded; a rebuilt frame roots the register file it takes from saved state in its own guard. Values handed to the host as RuntimeValue::unguarded are provably not objects.",
         ref="4/C02"),
 })
 
@@ -163,7 +163,7 @@ CHECKS.update({
              "script-built structures (12 unguarded cycles reproduced as stack overflows), bounded allocation sizes (3 reproduced "
              "aborts), reasoned panic sites and non-zero divisors, and progress of every loop in the dispatch (which found that "
              "cyclic prototype chains hang `instanceof`; repaired together with four RefCell panics, fix: commits). Work per "
-             "native and debug-build arithmetic overflow are not decided.",
+             "native and debug-build arithmetic overflow are not decided. The opcode arms that re-enter the run loop natively are a frozen table; the call opcodes are not among them.",
         ref="4/C06"),
 })
 
@@ -175,7 +175,7 @@ CHECKS.update({
              "sub-parser after restoring a checkpoint around another one, nor rolls back over a whole value expression (exactly one "
              "offender: 2^n on nested parenthesised assignments); every loop of the lexer/parser has an input-state gate or a progress edge on each cycle. The "
              "unguarded parser recursion, the exponential speculation and the u8 overflows are genuine, reproduced and listed. "
-             "Polynomial degree and memory use are not decided.",
+             "Polynomial degree and memory use are not decided. No loop of the front end multiplies with overflow checking (digit accumulators).",
         ref="4/C05"),
 })
 
